@@ -144,6 +144,73 @@ fn cr_target(store: &AnnotationStore, sel: &Selector) -> Option<String> {
     Some(out.join(" "))
 }
 
+// ---------------------------------------------------------------------------------------------
+// the JSON of every annotation's target vs. the Lean model (StamModel/JsonSel.lean): `js write` / `js read` lines
+// ---------------------------------------------------------------------------------------------
+
+/// a JSON tree in the prefix notation of the driver; None when it holds something the model has no form for
+fn js_tokens(v: &serde_json::Value, out: &mut Vec<String>) -> Option<()> {
+    match v {
+        serde_json::Value::Null => out.push("Z".into()),
+        serde_json::Value::String(s) => out.push(format!("S{}", hex(s))),
+        serde_json::Value::Number(n) => out.push(format!("N{}", n.as_i64()?)),
+        serde_json::Value::Array(a) => { out.push(format!("A{}", a.len())); for x in a { js_tokens(x, out)?; } }
+        serde_json::Value::Object(o) => { let mut ks: Vec<&String> = o.keys().collect(); ks.sort(); out.push(format!("O{}", o.len())); for k in ks { out.push(hex(k)); js_tokens(&o[k], out)?; } }
+        serde_json::Value::Bool(_) => return None,
+    }
+    Some(())
+}
+
+fn json_targets_vs_model(rep: &mut Report, store: &AnnotationStore, js: &str, ctx: &Vec<String>) {
+    let doc: serde_json::Value = match serde_json::from_str(js) { Ok(v) => v, Err(_) => return };
+    let arr = match doc.get("annotations").and_then(|x| x.as_array()) { Some(a) => a, None => return };
+    let anns: Vec<_> = store.annotations().collect();
+    if arr.len() != anns.len() { return; }
+    for (a, j) in anns.iter().zip(arr.iter()) {
+        let target = match j.get("target") { Some(t) => t, None => continue };
+        // the writer
+        if let Some(spec) = cr_target(store, a.as_ref().target()) {
+            let mut toks = vec![];
+            if js_tokens(target, &mut toks).is_some() {
+                rep.count("json:target-write-vs-model");
+                rep.model_case_ctx(ctx.clone(), vec![format!("js write {}", spec)], vec![toks.join(" ")], "json-target-write");
+            }
+        }
+        // the reader: the target as written, and damaged variants (a member removed, retyped, renamed; the tag changed)
+        let mut variants: Vec<serde_json::Value> = vec![target.clone()];
+        fn paths(v: &serde_json::Value, cur: Vec<String>, out: &mut Vec<Vec<String>>) {
+            match v {
+                serde_json::Value::Object(o) => for (k, x) in o { let mut p = cur.clone(); p.push(k.clone()); out.push(p.clone()); paths(x, p, out); },
+                serde_json::Value::Array(a) => for (i, x) in a.iter().enumerate() { let mut p = cur.clone(); p.push(i.to_string()); paths(x, p, out); },
+                _ => {}
+            }
+        }
+        fn at<'a>(v: &'a mut serde_json::Value, p: &[String]) -> Option<&'a mut serde_json::Value> { let mut c = v; for k in p { c = match c { serde_json::Value::Object(o) => o.get_mut(k)?, serde_json::Value::Array(a) => a.get_mut(k.parse::<usize>().ok()?)?, _ => return None }; } Some(c) }
+        let mut ps = vec![]; paths(target, vec![], &mut ps);
+        for p in ps.iter().take(24) {
+            let (parent, last) = p.split_at(p.len() - 1);
+            // remove the member
+            { let mut t = target.clone(); if let Some(serde_json::Value::Object(o)) = at(&mut t, parent) { o.remove(&last[0]); variants.push(t); } }
+            // retype it
+            { let mut t = target.clone(); if let Some(x) = at(&mut t, p) { *x = match x { serde_json::Value::String(_) => serde_json::json!(7), serde_json::Value::Number(_) => serde_json::json!("7"), serde_json::Value::Object(_) => serde_json::Value::Null, _ => serde_json::json!("x") }; variants.push(t); } }
+            // negate a number / change a tag
+            { let mut t = target.clone(); if let Some(x) = at(&mut t, p) { match x { serde_json::Value::Number(n) => { if let Some(i) = n.as_i64() { *x = serde_json::json!(-i - 1); variants.push(t); } } serde_json::Value::String(s) if last[0] == "@type" => { *x = serde_json::json!(match s.as_str() { "BeginAlignedCursor" => "EndAlignedCursor", "EndAlignedCursor" => "BeginAlignedCursor", "TextSelector" => "ResourceSelector", "ResourceSelector" => "TextSelector", "AnnotationSelector" => "TextSelector", "MultiSelector" => "DirectionalSelector", _ => "Nonsense" }); variants.push(t); } _ => {} } } }
+        }
+        for v in variants {
+            let mut toks = vec![];
+            if js_tokens(&v, &mut toks).is_none() { continue; }
+            let got = match guarded(std::panic::AssertUnwindSafe(|| serde_json::from_value::<SelectorBuilder>(v.clone()).map_err(|e| format!("{}", e)))) {
+                Err(m) => format!("panic:{}", m.chars().take(60).collect::<String>()),
+                Ok(Err(_)) => "err".to_string(),
+                Ok(Ok(sb)) => match cr_builder(&sb) { Some(t) => format!("ok {}", t), None => "unrenderable".to_string() },
+            };
+            if got == "unrenderable" { continue; }
+            rep.count("json:target-read-vs-model");
+            rep.model_case_ctx(ctx.clone(), vec![format!("js read {}", toks.join(" "))], vec![got], "json-target-read");
+        }
+    }
+}
+
 /// every row of the written annotations table: its eight target cells and its two data cells against the model's
 fn csv_rows_vs_model(rep: &mut Report, store: &AnnotationStore, sub: &std::path::Path, ctx: &Vec<String>) {
     let file = match std::fs::read_dir(sub).ok().and_then(|rd| rd.flatten().map(|e| e.path()).find(|p| p.file_name().map(|n| n.to_string_lossy().contains(".annotations.")).unwrap_or(false))) { Some(f) => f, None => return };
@@ -274,6 +341,7 @@ fn check_script(rep: &mut Report, script: &[String], property: Option<&str>, dir
                     Ok(Ok(s)) => s,
                     other => { rep.fail(if other.is_err() { "panic" } else { "oracle" }, "C05/write-fails", ctx.clone(), "a JSON document", &format!("{:?}", other.map(|r| r.map(|_| ())))); continue; }
                 };
+                if !compact { json_targets_vs_model(rep, store, &js, &ctx); }
                 let loaded = guarded(std::panic::AssertUnwindSafe(|| AnnotationStore::from_str(&js, Config::default())));
                 match loaded {
                     Ok(Ok(st2)) => {
